@@ -12,6 +12,8 @@ def fill(res, infos, stats, sources, rule, extra=None):
         "rule": rule + "; non-trivial = elaborates to at least 3 Core nodes; distinct by source text",
         "disagreements_checked": sum(1 for i in infos if i["status"] in ("known", "violation")),
         "outcomes": dict(stats),
+        "proved_for_all_inputs": stats.get("proved_for_all_inputs", 0),
+        "proved_note": "programs whose every bound Core node passed the kernel-verified matcher (Facto.scalar_end_to_end): for these the agreement holds for ALL input values, not only the searched ones",
         "samples": [i["source"] for i in infos[:3]],
     })
     if extra:
